@@ -40,6 +40,7 @@ func runC20(c *core.Ctx) {
 	c20R2(c)
 	c20R3(c)
 	c20R5(c)
+	c20R6(c, "C20.R6")
 }
 
 // constBoundsGuarded checks, for every constant-bound slice/index of value x in f, that a
@@ -470,4 +471,183 @@ func c20R5as(c *core.Ctx, rule string) {
 		c.Check(ok, rule, fnName(f)+":unknown characters are an error", f.Pos(), "a byte outside the alphabet makes decodeKey return an error", "decodeKey does not return an error when the table entry is 0xFF")
 	}
 	_ = strings.TrimSpace
+}
+
+// c20R6: key ciphers are functions of (license material, key): the state of every
+// license.Cipher implementation is written only while it is being constructed. A memo, a
+// counter or a scratch buffer kept in the cipher object makes the result of DecryptKey /
+// EncryptKey depend on the history of earlier calls (and on which instance is asked), which
+// "the same key string decrypts to the same key" excludes.
+func c20R6(c *core.Ctx, rule string) {
+	c.Rule(rule, "the fields of every license.Cipher implementation are written only through a freshly allocated object (constructor); elsewhere addresses derived from the cipher object are only loaded from, or handed to callees/arguments known to read them", 3)
+	n := c.P.Type("internal/security/license", "Cipher")
+	if n == nil {
+		c.Undecided(rule, "anchor:license.Cipher", token.NoPos, "anchor missing")
+		return
+	}
+	impls := c.P.Implementers(n.Underlying().(*types.Interface))
+	isCipher := func(t types.Type) *types.Named {
+		if p, ok := t.Underlying().(*types.Pointer); ok {
+			t = p.Elem()
+		}
+		for _, im := range impls {
+			if types.Identical(t, im) {
+				return im
+			}
+		}
+		return nil
+	}
+	// (external callee, argument index) pairs that only read through the pointer/slice given
+	readOnlyArg := map[string]map[int]bool{
+		"golang.org/x/crypto/salsa20/salsa.HSalsa20":     {1: true, 2: true, 3: true},
+		"golang.org/x/crypto/salsa20/salsa.XORKeyStream": {1: true, 2: true, 3: true},
+	}
+	type key struct {
+		f *ssa.Function
+		p int
+	}
+	memo := map[key]string{}
+	var usesOK func(f *ssa.Function, root ssa.Value, depth int) string // "" = only read
+	usesOK = func(f *ssa.Function, root ssa.Value, depth int) string {
+		if depth > 4 {
+			return "call chain too deep to follow in " + fnName(f)
+		}
+		D := map[ssa.Value]bool{root: true}
+		work := []ssa.Value{root}
+		bad := ""
+		for len(work) > 0 && bad == "" {
+			v := work[len(work)-1]
+			work = work[:len(work)-1]
+			refs := v.Referrers()
+			if refs == nil {
+				continue
+			}
+			for _, r := range *refs {
+				add := func(x ssa.Value) {
+					if !D[x] {
+						D[x] = true
+						work = append(work, x)
+					}
+				}
+				switch x := r.(type) {
+				case *ssa.FieldAddr:
+					add(x)
+				case *ssa.IndexAddr:
+					if x.X == v {
+						add(x)
+					}
+				case *ssa.Slice:
+					if x.X == v {
+						add(x)
+					}
+				case *ssa.Phi:
+					add(x)
+				case *ssa.ChangeType:
+					add(x)
+				case *ssa.Convert:
+					add(x)
+				case *ssa.UnOp, *ssa.DebugRef, *ssa.BinOp, *ssa.Index, *ssa.Field, *ssa.Lookup, *ssa.Range:
+					// loads, comparisons
+				case *ssa.Store:
+					if x.Addr == v {
+						bad = fmt.Sprintf("%s stores into it (%s)", fnName(f), c.P.Pos(x.Pos()))
+					} else if x.Val == v {
+						if _, isLocal := x.Addr.(*ssa.Alloc); !isLocal {
+							bad = fmt.Sprintf("%s lets its address escape (%s)", fnName(f), c.P.Pos(x.Pos()))
+						} else {
+							// spilled local holding the address: follow its loads
+							for _, rr := range *x.Addr.(*ssa.Alloc).Referrers() {
+								if u, ok := rr.(*ssa.UnOp); ok && u.Op == token.MUL {
+									add(u)
+								}
+							}
+						}
+					}
+				case ssa.CallInstruction:
+					cc := x.Common()
+					args := eng.CallArgs(cc)
+					for ai, a := range args {
+						if a != v {
+							continue
+						}
+						if b, isB := cc.Value.(*ssa.Builtin); isB {
+							if b.Name() == "copy" && ai == 0 {
+								bad = fmt.Sprintf("%s copies into it (%s)", fnName(f), c.P.Pos(x.Pos()))
+							}
+							continue
+						}
+						if cc.IsInvoke() && ai == 0 {
+							continue
+						}
+						callee := cc.StaticCallee()
+						if callee == nil {
+							bad = fmt.Sprintf("%s passes it to a function value (%s)", fnName(f), c.P.Pos(x.Pos()))
+							continue
+						}
+						if callee.Blocks == nil || !core.InScope(pkgPathOf(callee)) {
+							id := eng.FuncID(eng.CalleeObj(cc))
+							if readOnlyArg[id][ai] {
+								continue
+							}
+							bad = fmt.Sprintf("%s passes it to %s (argument %d), which may write through it (%s)", fnName(f), id, ai, c.P.Pos(x.Pos()))
+							continue
+						}
+						off := len(callee.Params) - len(args)
+						k := key{callee, ai + off}
+						if _, seen := memo[k]; !seen {
+							memo[k] = "" // recursion guard
+							if ai+off >= 0 && ai+off < len(callee.Params) {
+								memo[k] = usesOK(callee, callee.Params[ai+off], depth+1)
+							}
+						}
+						if memo[k] != "" {
+							bad = memo[k]
+						}
+					}
+				case *ssa.Return, *ssa.MakeInterface, *ssa.MakeClosure:
+					// handing the cipher itself on (as license.Cipher) is fine; interior addresses are not
+					if _, isPtrToCipher := v.Type().Underlying().(*types.Pointer); !(isPtrToCipher && isCipher(v.Type()) != nil) {
+						bad = fmt.Sprintf("%s lets an interior address escape (%s)", fnName(f), c.P.Pos(r.Pos()))
+					}
+				}
+				if bad != "" {
+					break
+				}
+			}
+		}
+		return bad
+	}
+	nRoots := 0
+	for _, f := range c.P.ScopeFuncs() {
+		var roots []ssa.Value
+		for _, p := range f.Params {
+			if isCipher(p.Type()) != nil {
+				if _, isPtr := p.Type().Underlying().(*types.Pointer); isPtr {
+					roots = append(roots, p)
+				}
+			}
+		}
+		for _, r := range roots {
+			nRoots++
+			t := isCipher(r.Type())
+			why := usesOK(f, r, 0)
+			key := fmt.Sprintf("%s:%s state is read-only", fnName(f), t.Obj().Name())
+			if why == "" {
+				c.OK(rule, key, f.Pos(), "the cipher object is only read here and in everything it is handed to")
+			} else {
+				c.Fail(rule, key, f.Pos(), "the state of a key cipher is modified after construction ("+why+"): the result of DecryptKey/EncryptKey then depends on earlier calls and on which instance is asked (e.g. a memo whose zero value matches a legal input), so the same key string no longer always decrypts to the same key")
+			}
+		}
+	}
+	c.Count("cipher_receivers_analysed", nRoots)
+}
+
+func pkgPathOf(f *ssa.Function) string {
+	if f.Pkg != nil {
+		return f.Pkg.Pkg.Path()
+	}
+	if f.Object() != nil && f.Object().Pkg() != nil {
+		return f.Object().Pkg().Path()
+	}
+	return ""
 }
